@@ -1,0 +1,15 @@
+//go:build verif
+
+package autog
+
+import ig "github.com/nulab/autog/internal/graph"
+
+// VerifStage, when set, receives the working graph of each connected component after pre-processing (stage 0),
+// after each pipeline phase (stages 1-5) and after post-processing (stage 6).
+var VerifStage func(stage int, g *ig.DGraph)
+
+func verifStage(stage int, g *ig.DGraph) {
+	if VerifStage != nil {
+		VerifStage(stage, g)
+	}
+}
